@@ -425,6 +425,7 @@ func (r *runner) newMachine(dump bool) (*sym.Machine, error) {
 	m.Trace = r.trace
 	m.IntTokens = r.spec.IntTokens
 	m.InitAllow = r.initAllow
+	m.InitExtra = r.spec.InitExtra
 	m.TaintOK = map[string]bool{}
 	for _, p := range r.spec.TaintOK {
 		m.TaintOK[p] = true
